@@ -171,6 +171,8 @@ def is_helper(g: FuncInfo) -> bool:
     body = [st for st in g.node.body if not (isinstance(st, ast.Expr) and isinstance(st.value, ast.Constant))]
     if not body or all(isinstance(st, ast.Pass) for st in body):
         return False  # an empty method is an extension point for user code, not a helper
+    if any(isinstance(x, (ast.Yield, ast.YieldFrom)) for x in ast.walk(g.node)):
+        return False  # a generator is not a plain helper (its body runs lazily)
     n = sum(1 for _ in ast.walk(g.node))
     return n <= 900
 
